@@ -46,7 +46,19 @@ def product_of(objname):
 
 def compile_db():
     """-> list of {file, product, args} for every compile step of `make all`."""
-    p = subprocess.run(MAKE_N, cwd=REPO, capture_output=True, text=True)
+    # `make -n` still remakes the included .deps/*.Po stubs (makefiles are remade even under -n), so two checks started
+    # at the same moment on one tree race on them: one run per tree at a time, and one more attempt after a failure
+    import fcntl
+    os.makedirs(BUILD, exist_ok=True)
+    # (scratch copies of the thorough tier are private to one run: no lock file for each of them)
+    lockname = os.devnull if "/vfscratch-" in REPO else \
+        os.path.join(BUILD, ".make-n-%s.lock" % hashlib.sha1(REPO.encode()).hexdigest()[:12])
+    with open(lockname, "w") as lk:
+        if lockname != os.devnull:
+            fcntl.flock(lk, fcntl.LOCK_EX)
+        p = subprocess.run(MAKE_N, cwd=REPO, capture_output=True, text=True)
+        if p.returncode != 0:
+            p = subprocess.run(MAKE_N, cwd=REPO, capture_output=True, text=True)
     if p.returncode != 0:
         raise AnalysisBroken("make -n failed: " + p.stderr[-400:])
     units = {}
